@@ -52,10 +52,7 @@ def classify(rep, wl, fault, prob, lines, hdr_len):
                 return "KF-C15-HEADER-POSITION"
             if e[0] == "W" and e[2] != 0 and e[3] > 0 and major == 0x05 and e[1] == 2048:
                 return "KF-C15-HEADER-POSITION"
-    if prob.cat == "hang":
-        # class: CAF / SVX chunk scanners when reads deliver nothing from some point of the header on
-        if major in (0x18, 0x06) and kind in (1, 8) and not single and "open " in prob.text:
-            return "KF-C15-SCAN-HANG"
+    # (round 4) KF-C15-SCAN-HANG is repaired: a hang of the CAF / SVX chunk scanners is no longer waived
     return None
 
 
@@ -112,7 +109,9 @@ def run(ctx):
     quick = ctx.tier == "quick"
     failed = ctx.lean_stage(MODULES)
     found_input = False
-    ctx.run_regressions()
+    from .. import c15reg
+    if c15reg.run(ctx):
+        found_input = True
 
     # ---------------- known findings: replay each witness --------------------------------------------------------
     known = {k["id"]: k for k in ctx.known if k.get("status") == "known"}
